@@ -341,6 +341,9 @@ pub fn tolerate_observations() {
 	// in the serialized queue; a manager written while a duplicate claim's monitor update is in flight contains
 	// one. The code path after the assertion handles it (nothing to do), release builds load normally.
 	vcore::tolerate_panic("Non-event-generating channel freeing should not appear in our queue", "obs:manager-read-debug-assert-free-duplicate-claim");
+	// same bookkeeping (a redundant claim whose duplicative RAA blocker is expected in the map): after a restart the
+	// blocker may be gone already; the release code path just removes nothing.
+	vcore::tolerate_panic("assertion failed: found_blocker", "obs:duplicate-claim-blocker-not-found-debug-assert");
 }
 
 /// The test ChainMonitor of the library re-reads every monitor it has just written and asserts equality. That is
